@@ -219,7 +219,14 @@ func checkC15(ci interface{}, st *Stats) error {
 		what := op.Op
 		switch op.Op {
 		case "newset":
-			sets = append(sets, data.NewIntSet(op.Vals...))
+			// the values are handed over as a slice (with spare capacity) which the caller goes on using:
+			// the set must not live in it
+			arg := append(make([]int, 0, len(op.Vals)+2), op.Vals...)
+			sets = append(sets, data.NewIntSet(arg...))
+			for k := range arg {
+				arg[k] = 70 + k
+			}
+			_ = append(arg, 99, 98)
 			m := map[int]bool{}
 			for _, v := range op.Vals {
 				m[v] = true
